@@ -179,6 +179,14 @@ package openapiv3
 
 // one operation per RPC: its id is the RPC name, it is filed under the verb and the path template decided by
 // extractMethodHTTPInfo, and its path parameters are built from exactly the variables of that template
+// the 200 response refers to the component of the RPC's response type, the error responses to the two built-in components
+//@ func (g *Generator) buildResponses(method *protogen.Method) (r *orderedmap.Map[string, *v3.Response])
+//@   requires method != nil
+//@   modifies *
+//@   at-call CreateSchemaProxyRef requires success_refers_to_the_response_type: count("CreateSchemaProxyRef") == old(count("CreateSchemaProxyRef")) ==> arg0 == "#/components/schemas/" + g.getSchemaName(method.Output)
+//@   at-call CreateSchemaProxyRef requires then_the_builtin_errors: (count("CreateSchemaProxyRef") == old(count("CreateSchemaProxyRef")) + 1 ==> arg0 == "#/components/schemas/ValidationError") && (count("CreateSchemaProxyRef") == old(count("CreateSchemaProxyRef")) + 2 ==> arg0 == "#/components/schemas/Error")
+//@   ensures three_responses: count("CreateSchemaProxyRef") == old(count("CreateSchemaProxyRef")) + 3
+
 //@ func (g *Generator) processMethod(service *protogen.Service, method *protogen.Method)
 //@   requires method != nil && service != nil && g != nil
 //@   modifies *
@@ -188,6 +196,7 @@ package openapiv3
 //@   at-call assignOperationToPathItem requires query_parameters_published: count("buildQueryParameters") == old(count("buildQueryParameters")) + 1 && len(arg2.Parameters) >= len(lastRetAs("buildQueryParameters", []*v3.Parameter)) && (forall k int :: 0 <= k && k < len(lastRetAs("buildQueryParameters", []*v3.Parameter)) ==> arg2.Parameters[len(arg2.Parameters) - len(lastRetAs("buildQueryParameters", []*v3.Parameter)) + k] == lastRetAs("buildQueryParameters", []*v3.Parameter)[k])
 //@   at-call assignOperationToPathItem requires opid: arg2 != nil && arg2.OperationId == string(method.Desc.Name())
 //@   at-call assignOperationToPathItem requires verb: arg1 == info.httpMethod
+//@   at-call buildResponses requires for_this_method: arg0 == method
 //@   at-call CreateSchemaProxyRef requires body_refers_to_the_request_type: arg0 == "#/components/schemas/" + g.getSchemaName(method.Input)
 //@   at-call Set requires key: arg0 == "application/json" || arg0 == info.path
 //@   ensures registered: count("assignOperationToPathItem") == old(count("assignOperationToPathItem")) + 1 && count("buildPathParameters") == old(count("buildPathParameters")) + 1
